@@ -10,6 +10,7 @@ verus! {
 //@include prelude/pathspec.rs
 //@include prelude/c15.rs
 //@include prelude/resolver_env.rs
+//@include prelude/symlink_stack_stub.rs
 //@broadcast-here
 pub type RawMode = u32;
 pub mod syscalls {
